@@ -155,9 +155,10 @@ class Node:
 
 
 class Invalid(Exception):
-    def __init__(self, reason, index):
+    def __init__(self, reason, index, cmd=None):
         self.reason = reason
         self.index = index  # token index; None = detected at end of input
+        self.cmd = cmd      # name of the command whose arguments are at fault (semantic errors)
 
 
 class _P:
@@ -283,7 +284,8 @@ class _P:
 
 
 class Result:
-    def __init__(self, status, reason=None, index=None, tree=None, flags=(), missing_ext=None):
+    def __init__(self, status, reason=None, index=None, tree=None, flags=(), missing_ext=None, cmd=None):
+        self.cmd = cmd
         self.status = status
         self.reason = reason
         self.index = index
@@ -383,27 +385,27 @@ class Validator:
                     i += 1
                     if prm is not None and (prm["only_for"] is None or low in prm["only_for"]):
                         if i >= len(args):
-                            raise Invalid("tag-parameter-missing", getattr(n, "end_index", None))
+                            raise Invalid("tag-parameter-missing", getattr(n, "end_index", None), cmd=n.name)
                         k2, v2, t2 = args[i]
                         ok = (k2 == prm["type"]) or (prm["type"] == "stringlist" and k2 == "string")
                         if not ok:
-                            raise Invalid("bad-tag-parameter-type", t2)
+                            raise Invalid("bad-tag-parameter-type", t2, cmd=n.name)
                         if prm["values"] is not None and v2.decode("utf-8", "replace") not in prm["values"]:
-                            raise Invalid("bad-tag-parameter-value", t2)
+                            raise Invalid("bad-tag-parameter-value", t2, cmd=n.name)
                         n.named[("extra", slot["name"])] = v2
                         i += 1
                     continue
             # positional
             remaining = plain_pos[npos:] if npos < len(plain_pos) else []
             if not remaining:
-                raise Invalid("surplus-argument" if kind != "tag" else "unexpected-tag", tix)
+                raise Invalid("surplus-argument" if kind != "tag" else "unexpected-tag", tix, cmd=n.name)
             p = remaining[0]
             if p["optional"]:
                 # [optional] required : the optional one is present iff two more arguments follow
                 rest = [a for a in args[i:]]
                 if len(rest) >= 2:
                     if not (kind == p["type"] or (p["type"] == "stringlist" and kind == "string")):
-                        raise Invalid("bad-argument-type", tix)
+                        raise Invalid("bad-argument-type", tix, cmd=n.name)
                     n.named[p["name"]] = val
                     npos += 1
                     i += 1
@@ -414,7 +416,7 @@ class Validator:
             if ok and p["type"] == "tag":
                 ok = val.decode("ascii").lower() in p["values"]
             if not ok:
-                raise Invalid("bad-argument-type" if kind != "tag" else "unexpected-tag", tix)
+                raise Invalid("bad-argument-type" if kind != "tag" else "unexpected-tag", tix, cmd=n.name)
             n.named[p["name"]] = val
             npos += 1
             i += 1
@@ -426,16 +428,16 @@ class Validator:
         tpos = [p for p in pos if p["type"] in ("test", "testlist")]
         if not tpos:
             if n.tests or n.testlist:
-                raise Invalid("test-given-to-command-without-test", n.tests[0].tok_index if n.tests else n.testlist_index)
+                raise Invalid("test-given-to-command-without-test", n.tests[0].tok_index if n.tests else n.testlist_index, cmd=n.name)
         elif tpos[0]["type"] == "test":
             if n.testlist:
-                raise Invalid("test-list-where-single-test-expected", n.testlist_index)
+                raise Invalid("test-list-where-single-test-expected", n.testlist_index, cmd=n.name)
             if len(n.tests) != 1:
-                raise Invalid("test-missing", getattr(n, "end_index", None))
+                raise Invalid("test-missing", getattr(n, "end_index", None), cmd=n.name)
             self.test(n.tests[0])
         else:
             if not n.testlist:
-                raise Invalid("test-list-expected", n.tests[0].tok_index if n.tests else getattr(n, "end_index", None))
+                raise Invalid("test-list-expected", n.tests[0].tok_index if n.tests else getattr(n, "end_index", None), cmd=n.name)
             for t in n.tests:
                 self.test(t)
 
@@ -468,7 +470,7 @@ def verdict_tokens(toks, commands=None):
     except InvalidExt as e:
         return Result("invalid", e.reason, e.index, missing_ext=e.ext)
     except Invalid as e:
-        return Result("invalid", e.reason, e.index)
+        return Result("invalid", e.reason, e.index, cmd=e.cmd)
     if v.flags:
         return Result("outside", v.flags[0], None, tree, v.flags)
     return Result("valid", None, None, tree)
